@@ -1773,4 +1773,20 @@ theorem SStoich.toStoich?_nonneg {s : SStoich} {t : Stoich} (h : s.toStoich? = s
         · simp only [hk]; exact this
     · simp [ha] at h
 
+theorem mapM_option_mem {α β : Type} {f : α → Option β} {l : List α} {l' : List β} (h : l.mapM f = some l')
+    (x : α) (hx : x ∈ l) : ∃ y, f x = some y := by
+  induction l generalizing l' with
+  | nil => simp at hx
+  | cons a t ih =>
+    simp only [List.mapM_cons, Option.pure_def, Option.bind_eq_bind] at h
+    cases ha : f a with
+    | none => simp [ha] at h
+    | some b =>
+      cases ht : t.mapM f with
+      | none => simp [ha, ht] at h
+      | some t' =>
+        rcases List.mem_cons.mp hx with rfl | hx
+        · exact ⟨b, ha⟩
+        · exact ih ht hx
+
 end ChemModel.RSysGraph
